@@ -42,6 +42,12 @@ type GI struct {
 	B interface{}
 }
 
+// GM mixes both export routes: A is exported generically (map / slice), B as a typed pointer.
+type GM struct {
+	A interface{}
+	B *GM
+}
+
 type GraphCase struct {
 	Part   string `json:"part"`
 	Kinds  []int  `json:"kinds"` // 0 object, 1 array
@@ -67,7 +73,7 @@ func (g *graphRT) get(mapper int) (*goja.Runtime, goja.Callable) {
 	return g.rt[mapper], g.b[mapper]
 }
 
-var graphRoutes = []string{"Export", "ExportTo-generic", "ExportTo-interface", "ExportTo-*struct", "ExportTo-struct-of-interface", "ExportTo-map-of-*struct", "ExportTo-slice-of-*struct"}
+var graphRoutes = []string{"ExportTo-*struct-mixed", "Export", "ExportTo-generic", "ExportTo-interface", "ExportTo-*struct", "ExportTo-struct-of-interface", "ExportTo-map-of-*struct", "ExportTo-slice-of-*struct"}
 
 type isoCtx struct {
 	gc     *GraphCase
@@ -85,6 +91,14 @@ func (c *isoCtx) key(j int) int {
 		return len(c.gc.Kinds)
 	}
 	return j
+}
+
+// keyOf: in the mixed route a node has one identity per export class (generic / typed pointer).
+func (c *isoCtx) keyOf(j int, v reflect.Value) int {
+	if c.gc.Route == "ExportTo-*struct-mixed" && v.Kind() == reflect.Ptr {
+		return j + len(c.gc.Kinds)
+	}
+	return c.key(j)
 }
 
 func (c *isoCtx) fail(f string, a ...interface{}) bool {
@@ -133,7 +147,7 @@ func (c *isoCtx) match(j int, v reflect.Value) bool {
 	default:
 		return c.fail("node %d exported as %s", j, v.Type())
 	}
-	if g, ok := c.j2g[c.key(j)]; ok {
+	if g, ok := c.j2g[c.keyOf(j, v)]; ok {
 		if g != id {
 			return c.fail("node %d was exported twice into different Go values (sharing lost)", j)
 		}
@@ -142,8 +156,8 @@ func (c *isoCtx) match(j int, v reflect.Value) bool {
 	if j2, ok := c.g2j[id]; ok {
 		return c.fail("nodes %d and %d were exported into the same Go value (confused)", j2, j)
 	}
-	c.j2g[c.key(j)] = id
-	c.g2j[id] = c.key(j)
+	c.j2g[c.keyOf(j, v)] = id
+	c.g2j[id] = c.keyOf(j, v)
 	isArr := c.gc.Kinds[j] == 1
 	for s := 0; s < 2; s++ {
 		t := c.gc.Slots[2*j+s]
@@ -244,6 +258,18 @@ func checkGraph(g *graphRT, gc *GraphCase) (sig, what string, applicable bool) {
 			return "", "", false
 		}
 		target = reflect.New(reflect.TypeOf(GI{}))
+	case "ExportTo-*struct-mixed":
+		// every node reached through a B-chain from the root is exported as *GM and must be an object
+		for j, seen := 0, map[int]bool{}; j >= 0 && !seen[j]; j = gc.Slots[2*j+1] {
+			seen[j] = true
+			if gc.Kinds[j] != 0 {
+				return "", "", false
+			}
+		}
+		if !mixedTypedOK(gc) {
+			return "", "", false
+		}
+		target = reflect.New(reflect.TypeOf((*GM)(nil)))
 	case "ExportTo-map-of-*struct":
 		if rootArr {
 			return "", "", false
@@ -337,6 +363,10 @@ func checkGraph(g *graphRT, gc *GraphCase) (sig, what string, applicable bool) {
 	}
 	return "", "", true
 }
+
+// mixedTypedOK: in the mixed route only the nodes on the B-chain of the root are exported typed; everything
+// below an A slot is generic. (Nothing else to check: generic export accepts every node kind.)
+func mixedTypedOK(gc *GraphCase) bool { return true }
 
 func reachAllObjects(gc *GraphCase, from int) bool {
 	seen := map[int]bool{}
